@@ -313,8 +313,66 @@ def check_unmapped(case, ctx):
         shutil.rmtree(tmp, ignore_errors=True)
 
 
+def grouped_cases(tier):
+    return [{"first": f, "n": n, "with_dt": dt} for f in (True, False) for n in (1, 2, 3) for dt in (False, True)]
+
+
+def check_grouped(case, ctx):
+    """A grouped record handed to the Avro writer: either it is refused, or what is read back carries the values of
+    its flat view - never a row of other values (nulls)."""
+    from flow.record import GroupedRecord, RecordDescriptor, RecordReader, RecordWriter
+
+    g = _d.datetime(2020, 1, 1, tzinfo=UTC)
+    A = RecordDescriptor("t/ga", [("string", "a"), ("varint", "n")] + ([("datetime", "ts")] if case["with_dt"] else []))
+    B = RecordDescriptor("t/gb", [("string", "b"), ("boolean", "flag")])
+    ctx.nontriv()
+    ctx.cls("grouped-to-avro")
+    tmp = ctx.fresh_dir()
+    try:
+        p = os.path.join(tmp, "g.avro")
+        w = RecordWriter(p)
+        written = []
+        if not case["first"]:
+            plain = A("plain", 0, *([g] if case["with_dt"] else []), _generated=g)
+            if impl(w.write, plain).ok:
+                written.append(("plain", 0))
+        accepted = 0
+        for i in range(case["n"]):
+            grp = GroupedRecord("t/ga" if not case["first"] else "t/grp",
+                                [A("va%d" % i, i + 1, *([g] if case["with_dt"] else []), _generated=g, _source="src"),
+                                 B("vb%d" % i, True, _generated=g)])
+            res = impl(w.write, grp)
+            if res.ok:
+                accepted += 1
+                written.append(("va%d" % i, i + 1))
+        cres = impl(w.close)
+        if not accepted:
+            ctx.cls("grouped:refused")
+            return
+        ctx.cls("grouped:accepted")
+        if not cres.ok:
+            raise Violation("avro/grouped/close-raised", "%r" % (cres,))
+
+        def rd():
+            r = RecordReader(p)
+            try:
+                return [(None if x.a is None else str(x.a), None if x.n is None else int(x.n)) for x in r]
+            finally:
+                r.close()
+
+        got = impl(rd)
+        if not got.ok:
+            raise Violation("avro/grouped/accepted-unreadable", "%d grouped records accepted, file unreadable: %r" % (accepted, got))
+        if got.value != written:
+            raise Violation("avro/grouped/accepted-differs", "grouped records were accepted by write() but read back as %r, "
+                            "written (a, n) = %r" % (got.value, written))
+    finally:
+        shutil.rmtree(tmp, ignore_errors=True)
+
+
 def parts(tier):
     return [
         Part("mapped", check, strategy=case_strategy(), examples=(300, 15000)),
+        Part("grouped-records", check_grouped, cases=grouped_cases, exhaustive=True),
         Part("unmapped", check_unmapped, strategy=unmapped_case(), examples=(10, 60)),
     ]
